@@ -3,10 +3,10 @@
 (T) Props/C13.lean: the selection logic of the 28 Meeus ch. 36 periodic-term finders and of the 7
     perihelion_aphelion first approximations, for all queries, on records regenerated from the
     source by tools/gen_finders.py.
-(S) the binary64 instantiation of the one generic evaluator (templates/Finders.lean) on the
-    generated records against CPython, bit for bit: every ch. 36 finder from `y = epoch.year()` to
-    `Epoch(jde0 + corr).jde()` (and the elongation angle), and on a quarter of the queries the whole chain from
-    the `_jde` of the query (Epoch.year modelled as well); the first approximation `jde` of every
+(S) the binary64 instantiation of the one generic evaluator (templates/Finders.lean, composed with
+    EpochCal.year and EpochOps.Epoch.init) on the generated records against CPython, bit for bit, on every
+    case the whole chain: from the `_jde` of the query epoch through `epoch.year()`, k, jde0, corr to the
+    `_jde` of the returned `Epoch(jde0 + corr)` (and the elongation angle); the first approximation `jde` of every
     perihelion_aphelion (read from the abscissae handed to Interpolation).
 (I) the property's own predicates on the implementation, against the library's VSOP87 positions:
     the event occurs within 1 day (Mercury..Mars) / 2 days (beyond) of the returned instant;
@@ -49,39 +49,46 @@ FUNCTIONS = (['pymeeus/%s.py:%s.%s' % (p, p, m) for p in PLANETS for m in HAS36[
                 'pymeeus/Coordinates.py:passage_nodes_elliptic'])
 
 MANIFEST = dict(
-    text=("PARTIAL. Proved in Lean 4 (Props/C13.lean), for the 28 Meeus ch. 36 periodic-term finders (conjunctions, "
-          "oppositions, greatest elongations, stations) on data records regenerated from the current source by "
-          "tools/gen_finders.py, for every real query year: the period count k = round((365.2425 y + 1721060 - A)/B) "
-          "(half-even) is monotone in y and takes every integer between its extremes; |corr - c0| <= C_f for all "
-          "angles and all |t| <= 41 with C_f the sum of absolute amplitude polynomials computed by the kernel from the "
-          "source constants; result(k+1) - result(k) in [B - 2 C_f, B + 2 C_f] with B - 2 C_f > 0 (strictly increasing, "
-          "no event skipped or repeated, spacing one period within 2 C_f); |jde0(k(y)) - (365.2425 y + 1721060)| <= B/2 "
-          "and |t| <= 41 on -2000..4000; ValueError iff y < -2000 or y > 4000. For the 7 perihelion_aphelion: k monotone, "
-          "onto, first approximations strictly increasing one period apart. NOT proved, measured only: that the returned "
-          "instants are events of the VSOP87 theory (agreement of two independent series), everything after the first "
-          "approximation in perihelion_aphelion (VSOP87 + Interpolation.minmax) and passage_nodes (two-body motion), "
-          "Epoch.year and the Epoch(jde) round trip. Measured by (I) on the implementation: sign change of the event "
-          "function across [t - tol, t + tol] with tol = 1 day Mercury..Mars / 2 days beyond, order/spacing/distance for "
-          "queries advancing by 1/20 period over eras (quick) or the whole of -2000..4000 (thorough), ValueError outside."),
+    text=("PARTIAL. Proved in Lean 4 (Props/C13.lean, 26 theorems), for the 28 Meeus ch. 36 periodic-term finders "
+          "(conjunctions, oppositions, greatest elongations, stations) on data records regenerated from the current source "
+          "by tools/gen_finders.py. (a) For every real value y of epoch.year(): the period count "
+          "k = round((365.2425 y + 1721060 - A)/B) (half-even) is monotone and takes every integer between its extremes; "
+          "|corr - c0| <= C_f for all angles and |t| <= 41, C_f the sum of absolute amplitude polynomials computed by the "
+          "kernel from the source constants; result(k+1) - result(k) in [B - 2 C_f, B + 2 C_f], B - 2 C_f > 0 (strictly "
+          "increasing, none skipped or repeated); ValueError iff y < -2000 or y > 4000. (b) For every rational query JDE j in "
+          "[0, 5373484.5): the model is the composition Epoch.year (exact calendar model of templates/EpochCal.lean, theorems of "
+          "C16) -> finder over the reals -> Epoch(jde0 + corr) (constructor of templates/EpochOps.lean at the reals, proved to "
+          "store its argument exactly); year() is strictly increasing in j; ValueError iff year() outside [-2000, 4000] iff j "
+          "before -2000 Jan 1.0 or after 4000 Jan 1.0; the JDE of the returned Epoch never moves backwards as j advances, "
+          "consecutive counts are B +- 2 C_f apart, |365.2425 year() + 1721060 - j| <= 18 (proved calendar term, 17.5 d at "
+          "-2000) and |returned JDE - j| <= B/2 + |c0| + C_f + 18 < B. For the 7 perihelion_aphelion: k monotone, onto, "
+          "first approximations strictly increasing one period apart, also as functions of the query JDE. NOT proved, "
+          "measured only: that the returned instants are events of the VSOP87 theory (agreement of two independent series), "
+          "everything after the first approximation in perihelion_aphelion (VSOP87 + Interpolation.minmax) and passage_nodes "
+          "(two-body motion). Measured by (I) on the implementation: sign change of the event function across "
+          "[t - tol, t + tol] with tol = 1 day Mercury..Mars / 2 days beyond, order/spacing/distance for queries advancing by "
+          "1/20 period over eras (quick) or the whole of -2000..4000 (thorough), ValueError outside."),
     note=("Trusted: Lean kernel, Mathlib, axioms propext/Classical.choice/Quot.sound; the translator tools/gen_finders.py "
           "(rejects any statement shape it does not know; validated on every run by the bit-for-bit agreement of the "
-          "binary64 evaluation of its records with CPython); the hand-written generic evaluator; y = Epoch.year() is a "
-          "real input of the theorems (Epoch.year is modelled and tied in binary64 only); real arithmetic stands for binary64 in the theorems (idealisation measured, "
-          "not proved). Known findings: see findings.d/C13.json."),
-    technique="Lean 4 proof over generated data records (generic lemma + kernel-decided side conditions) + bit-exact "
-              "model/implementation correspondence + predicate evaluation against VSOP87 positions",
+          "binary64 evaluation of its records with CPython); the hand-written templates Finders.lean, EpochCore.lean, "
+          "EpochCal.lean, EpochOps.lean, whose binary64 instantiation is run against CPython from the query's _jde to the "
+          "_jde of the returned Epoch on every case; real/rational arithmetic stands for binary64 in the theorems "
+          "(idealisation measured, not proved). Known findings: see findings.d/C13.json."),
+    technique="Lean 4 proof over generated data records (generic lemma + kernel-decided side conditions), composed with the "
+              "proved calendar model + bit-exact whole-chain model/implementation correspondence + predicate evaluation "
+              "against VSOP87 positions",
     ref='6 C13')
 
 TRUSTED = ['tools/gen_finders.py (ast translator; fails on unknown shapes; its records are validated by the bit-exact run)',
-           'the theorems take y = epoch.year() as a real input; Epoch.year (get_date, get_doy with a stub for '
-           'datetime.date(...).timetuple().tm_yday, leap) and the final Epoch(jde) round trip are modelled in binary64 only '
-           'and tied bit for bit (cases finder_jde/*)',
+           'the query _jde is a rational number in the theorems (every binary64 is one); Epoch.year is evaluated in the exact '
+           'rational instantiation of templates/EpochCal.lean and cast to the reals, where sin/cos live; the stub for '
+           'datetime.date(...).timetuple().tm_yday in that template is validated by the bit-exact run',
            'perihelion_aphelion: only the first approximation jde is modelled; it is read from the abscissae the '
            'implementation passes to Interpolation (a recording subclass installed by the harness, /repo untouched)',
            'event predicates use the library\'s own VSOP87 positions (geocentric_position, Sun.apparent_geocentric_position, '
            'geometric_heliocentric_position) as the property prescribes']
 ASSUMPTIONS = ['binary64 rounding does not change k away from ties of round(): measured by the bit-exact run, not proved']
-RULE = 'distinct (finder, y) pairs sent to the binary64 model and to the implementation; predicates counted separately'
+RULE = 'distinct (finder, query _jde) pairs sent to the binary64 model and to the implementation; predicates counted separately'
 
 J_LO = 990557.5    # Epoch(-2000, 1, 1.0)
 J_HI = 3182029.5   # Epoch(4000, 1, 1.0)
@@ -337,16 +344,8 @@ def pred_near(ctx, finder, variant, q, r, b):
 
 
 def tie36(ctx, finder, e, out, klass):
-    """(S): the model gets y = epoch.year() of the implementation; compares Epoch(jde0 + corr).jde() [and elon]."""
-    try:
-        y = e.year()
-    except Exception:  # noqa  (Epoch.year fails beyond year 9999; nothing to tie)
-        return
-    ctx.case('finder', [finder, y], out, q=None, klass=klass)
-
-
-def tie36j(ctx, finder, e, out, klass):
-    """(S), whole chain: the model gets the `_jde` of the query epoch and runs its own Epoch.year() too."""
+    """(S), the whole chain: the model gets the `_jde` of the query epoch and runs Epoch.year(), the period count,
+    the series and the final Epoch(jde0 + corr) itself; compared bit for bit with what the implementation returned."""
     ctx.case('finder_jde', [finder, e.jde()], out, q=None, klass=klass)
 
 
@@ -395,9 +394,7 @@ def sweep(ctx, finder, variant, q_start, q_end, step, tie_every=1, event_every=0
         if kind == 'ch36':
             out, res = impl36(finder, e)
             if i % tie_every == 0:
-                tie36(ctx, finder, e, out, 'finder/' + klass)
-            if i % (3 * tie_every) == 0:
-                tie36j(ctx, finder, e, out, 'finder_jde/' + klass)
+                tie36(ctx, finder, e, out, 'finder_jde/' + klass)
             if res is None:
                 ctx.predicate('returns_instant', False, [finder, variant, qq], out, 'returns_instant/' + finder)
         else:
@@ -409,7 +406,7 @@ def sweep(ctx, finder, variant, q_start, q_end, step, tie_every=1, event_every=0
                 ctx.predicate('returns_instant', True, [finder, variant, qq], None, 'returns_instant/' + finder)
                 res = r
             if kind == 'pa' and jde1 is not None and i % tie_every == 0:
-                ctx.case('pa_jde', [finder, e.year(), bool(variant)], enc(jde1), q=None, klass='pa_jde/' + klass)
+                ctx.case('pa_jde', [finder, e.jde(), bool(variant)], enc(jde1), q=None, klass='pa_jde/' + klass)
         if res is not None:
             pred_near(ctx, finder, variant, qq, res[0], b)
             if prev is not None:
@@ -463,8 +460,7 @@ def range_checks(ctx, finder, n):
         ok = (out == 'E:ValueError') if outside else (res is not None)
         ctx.predicate('range_refusal', ok, [finder, None, qq], {'outside': outside, 'got': out}, 'range_refusal/' + (
             'outside' if outside else 'inside'))
-        tie36(ctx, finder, e, out, 'finder/range')
-        tie36j(ctx, finder, e, out, 'finder_jde/range')
+        tie36(ctx, finder, e, out, 'finder_jde/range')
 
 
 def leap_day_checks(ctx, finder, variant, years):
@@ -483,8 +479,7 @@ def leap_day_checks(ctx, finder, variant, years):
             try:
                 if kind == 'ch36':
                     out, res = impl36(finder, e)
-                    tie36(ctx, finder, e, out, 'finder/leap_day')
-                    tie36j(ctx, finder, e, out, 'finder_jde/leap_day')
+                    tie36(ctx, finder, e, out, 'finder_jde/leap_day')
                     if res is None:
                         raise RuntimeError(out)
                     r = res[0]
@@ -521,7 +516,7 @@ def tasks(ctx):
         B = b[f]['B']
         nper = n(14, 30)
         for (lo, hi) in era_starts(ctx, B, nper):
-            T.append((sweep, (ctx, f, None, lo, hi, B / 20.0, 2 if sc == 1.0 else 4, 90 if thorough else int(120 * sc), 'era')))
+            T.append((sweep, (ctx, f, None, lo, hi, B / 20.0, 1 if sc == 1.0 else 3, 90 if thorough else int(120 * sc), 'era')))
         if thorough and ctx.scale <= 1.0:
             # the whole of -2000..4000 in steps of 1/20 period, in 6 slices (the sweeps are independent)
             for s in range(6):
@@ -563,13 +558,12 @@ def random_queries(ctx, finder, variant, n, n_events):
         qq = e.jde()
         if kind == 'ch36':
             out, res = impl36(finder, e)
-            tie36(ctx, finder, e, out, 'finder/random')
-            tie36j(ctx, finder, e, out, 'finder_jde/random')
+            tie36(ctx, finder, e, out, 'finder_jde/random')
         else:
             r, jde1 = implpa(finder, variant, e)
             res = None if isinstance(r, Exception) else r
             if kind == 'pa' and jde1 is not None:
-                ctx.case('pa_jde', [finder, e.year(), bool(variant)], enc(jde1), q=None, klass='pa_jde/random')
+                ctx.case('pa_jde', [finder, e.jde(), bool(variant)], enc(jde1), q=None, klass='pa_jde/random')
             out = repr(r)
         record(ctx, 'returns_instant', res is not None, [finder, variant, qq], None if res else out,
                'returns_instant/' + finder)
